@@ -9,7 +9,7 @@ from ..xpcase import Prepared
 ID = 'C12'
 LEVEL = 'exploration'
 RULE = ('Three generated sub-domains. (hist) insertion histories into a MutableNodeRefList through its ordered interface: addNodeInDocOrder(node), '
-        'addNodesInDocOrder(list built by addNode with a truthful unknown/document/reverse order flag), clear - over the nodes (elements, text, '
+        'addNodesInDocOrder(list built by addNode with a truthful unknown/document/reverse order flag, or a document-ordered list spanning several documents built by the ordered interface itself), clear - over the nodes (elements, text, '
         'comments, PIs, attributes, root) of 1-3 documents in one representation (native indexed tree, Xerces wrapper with indexes, Xerces wrapper in '
         'lazy mapping mode = structural comparison); insertion orders are generated so that the append fast path, the binary search and the linear '
         'scan are all taken. After every step the list must be duplicate-free, contain exactly the inserted nodes, keep each document contiguous and '
@@ -55,6 +55,10 @@ def hist_cases(draw):
         k = draw(st.integers(0, 9))
         if k <= 5:
             ops.append(['ins', draw(st.integers(0, ndocs - 1)), draw(st.integers(0, 40))])
+        elif k <= 8 and ndocs > 1 and draw(st.sampled_from([0, 0, 1])):
+            # a document-ordered source list that spans documents, built by the ordered interface itself (what a location step over a
+            # multi-document node-set hands to addNodesInDocOrder); wave 5: bulk lists never spanned documents
+            ops.append(['bulkm', [[draw(st.integers(0, ndocs - 1)), draw(st.integers(0, 40))] for _ in range(draw(st.integers(1, 6)))]])
         elif k <= 8:
             n = draw(st.integers(0, 6))
             ops.append(['bulk', draw(st.sampled_from(['unk', 'doc', 'rev'])), draw(st.integers(0, ndocs - 1)),
@@ -162,6 +166,20 @@ def check_hist(ctx, case):
             content.add((di, n))
             touched_docs.add(di)
             fields.append(('ins', '%d:%s' % (di, n.key)))
+        elif op[0] == 'bulkm':
+            sel = []
+            for d, i in op[1]:
+                d = d % len(mdocs)
+                n = _resolve(mdocs, d, i)
+                if n.kind == 'root' and 'no_root_in_history' in FLAGS and ctx.tier != 'replay':
+                    n = mdocs[d].root.children[0]
+                sel.append((d, n))
+            for d, n in sel:
+                if content and any(dd == d and m.order > n.order for dd, m in content):
+                    nonappend = True
+                content.add((d, n))
+                touched_docs.add(d)
+            fields.append(('bulk', '\n'.join(['docself'] + ['%d:%s' % (d, n.key) for d, n in sel])))
         elif op[0] == 'bulk':
             di = op[2] % len(mdocs)
             sel = [_resolve(mdocs, di, i) for i in op[3]]
